@@ -50,7 +50,11 @@ def run(prog, ctx):
                 res.obligations += 1
                 tgt = site["target"]
                 fx = s.cmp_facts_at(tgt if tgt is not None else b)
-                eq = [x for x in fx if x[0] == "Eq" and len(x) == 3 and lgk_like(x[1]) and lgk_like(x[2]) and x[1] != x[2]]
+                def mentions(e, idx):
+                    return sym.contains(e, lambda t: t[0] == "param" and t[1] == idx)
+                # the guard must compare the union's lg_k with the lg_k of the sketch being adopted (not with state of the union itself)
+                eq = [x for x in fx if x[0] == "Eq" and len(x) == 3 and lgk_like(x[1]) and lgk_like(x[2]) and x[1] != x[2] and
+                      ((mentions(x[1], a[1]) and mentions(x[2], 1) and not mentions(x[2], a[1])) or (mentions(x[2], a[1]) and mentions(x[1], 1) and not mentions(x[1], a[1])))]
                 if eq:
                     res.discharged += 1
                     res.sample({"rule": "C06.L", "fn": f.id, "guard": "%s == %s" % (show(eq[0][1]), show(eq[0][2]))})
